@@ -21,7 +21,7 @@ def frameMonStep (st : MonState) (w : List String) : MonState × String :=
   | none => (st, "bad-op")
   | some (frames, e) =>
     let startStream (s : Bytes) (parts : Option Parts) (name : String) : MonState × String :=
-      let st1 : MonState := { stream := s, parts := parts, ref := none }
+      let st1 : MonState := { stream := s, parts := parts, ref := none, spec := framesWhole s }
       let bad := monRead st1 name false frames e
       ({ st1 with ref := if e = "panic" ∨ e = "hang" then none else some (frames, e) }, verdict bad)
     match op with
